@@ -275,3 +275,36 @@ Example c07_batch_trace_example :
   snd (end_block_trace 3 21 [mkAppEnv 1 [mkBatch 1 true 1000000000000000000 [(1, 1000, 1001, 1000); (2, 1000, 1000, 1000)] [] 0] [] []]
          (reach (w_setup 1) [OCreatePair 1 90 1 2; OLimit (w_buy 1 1) 10; OLimit w_sell 10; OEnd 2 11 []; OBegin])) = [(1, 0)].
 Proof. split; vm_compute; reflexivity. Qed.
+
+(* refuted on the unchanged tree (known finding C05-F2, the known finding C05-F1 reached through the keeper): a batch
+   whose engine result does not conserve the base coin - here a buy of 15000 at 0.01 filled in full while the pool
+   legs bring only 12000 base coins into the pair escrow ([batch_base_net] = -3000, class [kf_C05_2_stall]) - cannot
+   be applied: the escrow cannot pay the buyer, ExecuteRequests panics on the error and ApplyFuncIfNoError rolls the
+   whole batch of the app back.  The order stays NotExecuted and the pair's batch id stays 1, at this block and again
+   at a later block that lies after the order's expiry (expiry is part of the rolled-back batch): the order is never
+   settled.  With an engine result that conserves coins (here: no match) the same block advances the batch id.
+   The harness reaches such books on the real keeper by a directed search (TestC05KeeperHunt) and the real EndBlocker
+   shows exactly this; the runner then feeds the engine's fills to the model, which rolls back as well. *)
+Definition st_buy : order_msg := mkOMsg 1 50 1 true true 2 151 1 10000000000000000 15000 100.
+Definition st_ops : list op := [OCreatePair 1 90 1 2; OCreatePool 1 90 1 1000000 100000000 true 1000000; OLimit st_buy 10].
+Definition st_batch : batch_env := mkBatch 1 true 10000000000000000 [(1, 15000, 150, 15000)] [(1, 150, -12000)] 0.
+Definition st_env : list app_env := [mkAppEnv 1 [st_batch] [] []].
+Definition st_state : state := reach (w_setup 1) st_ops.
+Theorem c07_batch_stall_refuted :
+  hist_ok (w_setup 1) st_ops /\
+  kf_C05_2_stall [batch_base_net (fun _ => true) st_batch] = true /\
+  map (fun e => (o_status (fst e), o_expire (fst e))) (orders st_state) = [(1, 110)] /\
+  snd (end_block_trace 2 11 st_env st_state) = [(1, 0)] /\
+  (let s1 := end_block 2 11 st_env st_state in
+   map (fun e => o_status (fst e)) (orders s1) = [1] /\ map p_batch (pairs s1) = [1] /\
+   let s2 := end_block 3 200 st_env (begin_block s1) in
+   snd (end_block_trace 3 200 st_env (begin_block s1)) = [(1, 0)] /\
+   map (fun e => o_status (fst e)) (orders s2) = [1] /\ map p_batch (pairs s2) = [1]) /\
+  map p_batch (pairs (end_block 2 11 [] st_state)) = [2].
+Proof.
+  split; [split; repeat constructor|]. split; [vm_compute; reflexivity|]. split; [vm_compute; reflexivity|].
+  split; [vm_compute; reflexivity|]. split; [|vm_compute; reflexivity].
+  cbv zeta. split; [vm_compute; reflexivity|]. split; [vm_compute; reflexivity|].
+  split; [vm_compute; reflexivity|]. split; vm_compute; reflexivity.
+Qed.
+Print Assumptions c07_batch_stall_refuted.
